@@ -139,6 +139,16 @@ pub fn shrink_bytes(b: &[u8]) -> Vec<Vec<u8>> {
         out.push(b[..b.len() / 2].to_vec());
         out.push(b[b.len() / 2..].to_vec());
     }
+    if b.len() > 4096 {
+        // large inputs: remove one of 16 equal chunks; no per-byte candidates (a megabyte would mean millions of copies)
+        let step = b.len() / 16;
+        for k in 0..16 {
+            let mut v = b[..k * step].to_vec();
+            v.extend_from_slice(&b[((k + 1) * step).min(b.len())..]);
+            out.push(v);
+        }
+        return out;
+    }
     for i in 0..b.len() {
         let mut v = b.to_vec();
         v.remove(i);
